@@ -417,6 +417,42 @@ func ifs(b bool, x, y string) string {
 
 func c15() []*Ob {
 	return []*Ob{
+		{Prop: "C15", ID: "C15.8", Engine: "ORDER(test-and-set)", Floor: 1,
+			Desc: "a deleted active fraction really loses its files: Active.Suicide decides between \"already released: only the leftovers\" and \"not released: remove .meta and .docs\" on the value the released flag had BEFORE it sets the flag — the read of f.released that feeds the branch precedes the store f.released = true; read afterwards it is always true, nothing is removed under the default configuration, and after a restart the loader replays the files of a fraction retention had dropped",
+			Check: func(c *Ctx) {
+				fn := c.Fn("(*frac.Active).Suicide")
+				if fn == nil {
+					return
+				}
+				n := 0
+				for _, b := range fn.Blocks {
+					iff, ok := b.Instrs[len(b.Instrs)-1].(*ssa.If)
+					if !ok {
+						continue
+					}
+					for _, ld := range InstrsIn(fn, FieldLoad("frac.Active", "released")) {
+						v, isV := ld.(ssa.Value)
+						if !isV || !DerivesFrom(iff.Cond, func(x ssa.Value) bool { return x == v }) {
+							continue
+						}
+						n++
+						stale := false
+						for _, st := range InstrsIn(fn, FieldStore("frac.Active", "released")) {
+							if Dominates(st, ld) {
+								stale = true
+							}
+						}
+						if stale {
+							c.Violation("order:Active.Suicide:released-read-after-set", ld.Pos(), "Active.Suicide reads the released flag after it has set it: the branch for a fraction that was not released (remove .meta and .docs) is dead, the files of a deleted active fraction stay on disk and are replayed at the next start")
+						} else {
+							c.Site(ld.Pos(), "the released flag is read before it is set")
+						}
+					}
+				}
+				if n == 0 {
+					c.Undecided("order:Active.Suicide:noflag", fn.Pos(), "Active.Suicide no longer branches on the released flag")
+				}
+			}},
 		{Prop: "C15", ID: "C15.7", Engine: "DOM(truncate)", Floor: 1,
 			Desc:  "an interrupted start-up leaves the data as it found it: Active.Replay cuts the files only where it read the log to its end (shared rule with C01.12) — a start that is stopped by a signal while an active fraction is replayed must not shorten that fraction: the next start would serve only a part of it, or delete it as empty",
 			Check: func(c *Ctx) { truncateOnlyAtEOF(c) }},
